@@ -287,8 +287,8 @@ def ite(c, a, b):
     if vkey(a) == vkey(b):
         return a
     # canonical polarity: conditions are kept in their positive form (== rather than !=, x rather than !x)
-    if (c.op == 'cmp' and c.args[0] == '!=') or c.op == 'not':
-        c, a, b = b_not(c), b, a
+    if (c.op == 'cmp' and c.args[0] in ('!=', '<=')) or c.op == 'not':
+        c, a, b = b_not(c), b, a          # (`x <= y` is kept as the negation of `y < x`)
     if isinstance(a, RF) and isinstance(b, RF):
         if a == b:
             return a
